@@ -30,7 +30,7 @@ use super::peer_addr_to_ip_version_str;
 use super::request::{parse_request, RequestParseError};
 
 const REQUEST_BUFFER_SIZE: usize = 2048;
-const RESPONSE_BUFFER_SIZE: usize = 4096;
+const RESPONSE_BUFFER_SIZE: usize = 8192;
 
 const RESPONSE_HEADER_A: &[u8] = b"HTTP/1.1 200 OK\r\nContent-Length: ";
 const RESPONSE_HEADER_B: &[u8] = b"        ";
